@@ -25,7 +25,19 @@ Match(p, r) == CASE p = "*"  -> TRUE
                  [] OTHER    -> p = r
 
 RuleType(d) == d.type \in {"rules", "all"}
-ExpMatch(e, r) == CASE e = "all" -> TRUE [] e = "none" -> FALSE [] OTHER -> Match(e, r)
+(* an export setting is "all", "none", a single rule pattern, or a LIST of (item type, pattern) entries, written          *)
+(* "t:*|r:r*" = [Template "*", Rule "r*"]; a rule is exported iff SOME entry of type rule / all matches it (order is moot) *)
+ExpLists == [ \* name |-> entries
+    m1 |-> << <<"templates", "*">>, <<"rules", "r*">> >>,
+    m2 |-> << <<"rules", "r*">>, <<"templates", "*">> >>,
+    m3 |-> << <<"facts", "*a">>, <<"all", "ra">>, <<"rules", "xa">> >>,
+    m4 |-> << <<"templates", "r*">>, <<"facts", "*">> >> ]
+ExpName(e) == CASE e = "t:*|r:r*" -> "m1" [] e = "r:r*|t:*" -> "m2" [] e = "f:*a|a:ra|r:xa" -> "m3" [] e = "t:r*|f:*" -> "m4" [] OTHER -> "none"
+MultiExp == {"t:*|r:r*", "r:r*|t:*", "f:*a|a:ra|r:xa", "t:r*|f:*"}
+ExpMatch(e, r) == CASE e = "all" -> TRUE [] e = "none" -> FALSE
+                    [] e \in MultiExp -> LET es == ExpLists[ExpName(e)] IN
+                                         \E i \in DOMAIN es : es[i][1] \in {"rules", "all"} /\ Match(es[i][2], r)
+                    [] OTHER -> Match(e, r)
 
 (* s exports r: owned and export-matched, or re-exported by a declaration of s through which r is *)
 (* itself visible to s.  Well-founded because imports are acyclic; fuel keeps it total anyway.    *)
@@ -111,6 +123,9 @@ Import(to, from, ty, pat, re) ==
          /\ graph' = graph \cup {<<to, from>>}
          /\ UNCHANGED <<mods, owns, exports>> /\ last' = lbl
 
+(* imports only (deep import graphs over more modules) *)
+NextImp == /\ nops' = nops + 1 /\ TotalDecls < MaxDecl
+           /\ \E to \in Mods, from \in Mods, ty \in Types, pat \in ImpPats, re \in ReKinds : Import(to, from, ty, pat, re)
 Next == /\ nops' = nops + 1
         /\ \/ \E m \in Mods : Create(m) \/ Delete(m)
            \/ \E m \in Mods, e \in ExpKinds : SetExports(m, e)
